@@ -9,9 +9,10 @@
    compile_context and the source graph are read over an arbitrary commutative ring and their
    equality is proved by [ring] inside Coq: for all inputs and all PRF/Random values.
    Not a theorem (C01_full): the operations outside the fragment (A2B/B2A, private-bit
-   MixedMultiply, Truncate (C05), Sort (C18), Join (C19)), n-ary share-wise operations, the
-   bridge from the ring reading to Graph/Eval.v, and that the deep compiler emits what the shallow
-   model computes; these are covered by the end-to-end differential oracle of the harness. *)
+   MixedMultiply, Truncate (C05), Sort (C18), Join (C19)); these are covered by the end-to-end
+   differential oracle of the harness.  Further down: the deep (graph-emitting) model of
+   compile_to_mpc_graph with its literal tie and correctness theorems (C01_deep_*), and the bridge
+   from the ring reading to the evaluator model Graph/Eval.v (C01_ring_reading_*). *)
 From Coq Require Import Ring.
 From CC Require Import Base.Prelude Model.MpcShallow Proofs.MpcShallowProofs Proofs.MpcShallowInst.
 
